@@ -25,6 +25,27 @@ def run(prop, tier):
         res = run_cases(camx.case_encode_read, args, timeout=60,
                         per_child=20, chunksize=2)
         traces += res
+        # files of one size and format with different layer / step splits at
+        # one path (e.g. 2 layers x 3 steps, then 3 layers x 2 steps)
+        groups = {}
+        for it in items:
+            c = it['cfg']
+            key = (c['fmt'], c['nx'] * c['ny'], c['year'], c['jjj'],
+                   c['hour'], c.get('hdr3'), c.get('dth'), c.get('nv'),
+                   it['bytes'])
+            groups.setdefault(key, []).append(it)
+        gargs = []
+        for key, its in sorted(groups.items(), key=lambda kv: str(kv[0])):
+            if len(set((it['cfg']['nz'], it['cfg']['nt']) for it in its)) > 1:
+                gargs.append((300000 + 10 * len(gargs), its[:4]))
+                gargs.append((400000 + 10 * len(gargs), its[:4][::-1]))
+        out.cov['same_path_groups'] = len(gargs)
+        for g in run_cases(camx.case_same_path, gargs, timeout=120,
+                           per_child=5, chunksize=1):
+            if '_crash' in g or '_hang' in g:
+                traces.append(g)
+            else:
+                traces += g['traces']
     if prop in ('C09', 'C08'):
         its = []
         for it in items:
